@@ -264,7 +264,19 @@ def apply_tl(W, op):
     """run one TreeList operation and update the expectations"""
     cur = W.cur
     name = op[0]
-    if name in ("append", "insert"):
+    if name == "rename":
+        # the caller renames a member taxon in place (its label is an ordinary attribute): from now on THAT is its label,
+        # for look-ups and for every tree that sits on it
+        ns = N.ns_of(cur)
+        old_label, new_label = op[1], op[2]
+        hit = [x for x in N.members(ns) if x.label == old_label]
+        if hit and not any(N.same_label(x.label, new_label, W.cs) for x in N.members(ns)):
+            tx = hit[0]
+            tx.label = new_label
+            for r in W.recs.values():
+                taxa = N.tree_taxa(r.tree)
+                r.labels = [new_label if (taxa[i] is tx) else l for i, l in enumerate(r.labels)] if len(taxa) == len(r.labels) else r.labels
+    elif name in ("append", "insert"):
         kind, strat = op[-2], op[-1]
         t = W.foreign_tree(kind)
         W.imported(t, cur, "migrate" if strat == "migrate" else strat)
@@ -1079,6 +1091,7 @@ def tl_alphabet(cs, small=False):
     ops += [["migrate-memo", "all"], ["migrate-memo", "some"]]
     ops += [["reconstruct"], ["update_ns"], ["pop", "0"], ["pop", "-1"], ["remove", "0"], ["del", "-1"], ["clear"],
             ["scoped_copy"], ["deepcopy"]]
+    ops += [["rename", "A", "X"], ["rename", "B", "Q"]]
     return ops
 
 
